@@ -9,7 +9,7 @@ the event-monitor model of C13; register addresses come from bus.memory_map.all_
 import random
 
 from vmon import env  # noqa: F401
-from vmon.simkit import Top, Mon, simulate, bits
+from vmon.simkit import Top, Mon, simulate, bits, new_map
 from vmon.models.csrmux import MuxModel
 from vmon.work.csrdev import CsrDriver, assemble
 
@@ -100,7 +100,7 @@ def run_case(case):
             dec.align_to(aw - 1)
             filler = csr.Interface(addr_width=1, data_width=dw, path=("filler",))
             from amaranth_soc.memory import MemoryMap
-            filler.memory_map = MemoryMap(addr_width=1, data_width=dw)
+            filler.memory_map = new_map(addr_width=1, data_width=dw)
             dec.add(filler, name="filler", addr=0)
         dec.add(dut.bus, name=rng.choice([None, "ev"]))
         subs["dec"] = dec
